@@ -79,6 +79,8 @@ class Widget(Part):
     that DISTINCT parts of equal quality compare equal and hash alike.  A library that tests parts for truth, or finds
     them with ==-based searches (in / index / remove / dict keys), is exposed; one that uses `is` / `== None` is not.'''
 
+    parts = ()          # an attribute that happens to be called like Batch.parts (the components of an assembly, say)
+
     def __len__(self):
         return 0
 
@@ -394,6 +396,7 @@ class SchedObj:
         self.x = [0]          # mutated IN PLACE by the 'bump' operation (sensors must have stored a copy)
         self.n = 0
         self.r = Rec(0)       # mutated in place as well
+        self.m = None         # an attribute that is None at some instants and a number at others
         self.block_input = False
 
 
@@ -613,19 +616,19 @@ class LineWorld:
             b = d.get('budget')
             o = Source(name, gen, d.get('cycle', 0), INF if b is None else b)
         elif k == 'handler':
-            o = PartHandler(name, up, d.get('cycle', 0))
+            o = PartHandler(name, up, d.get('cycle', 0), d.get('value', 0))
         elif k == 'processor':
             o = HProcessor(name, up, d.get('cycle', 0), d.get('value', 0),
                            d.get('resources'), wo={t: tuple(v) for t, v in d.get('wo', {}).items()})
             o.hub = self.hub
         elif k == 'buffer':
-            o = Buffer(name, up, d.get('delay', 0), d.get('capacity'))
+            o = Buffer(name, up, d.get('delay', 0), d.get('capacity'), d.get('value', 0))
         elif k == 'gate':
             o = DecisionGate(name, up, DECIDERS[d.get('decider', 'all')])
         elif k == 'flow':
             o = PartFlowController(name, up)
         elif k == 'batcher':
-            o = PartBatcher(name, up, 0, d.get('size'))
+            o = PartBatcher(name, up, d.get('value', 0), d.get('size'))
         elif k == 'sink':
             o = Sink(name, up, d.get('cycle', 0), d.get('collect', True))
         elif k == 'group':
@@ -643,6 +646,10 @@ class LineWorld:
             o = Maintainer(d.get('asset_name', name), INF if c is None else c, d.get('value', 0))
             if not d.get('spare'):
                 self.maintainer = o
+        elif k == 'leased':
+            # an asset that is transitory by construction (not registered automatically) and registered by hand
+            o = Asset(name, d.get('value', 0), True)
+            System.add_asset(o)
         elif k in ('obj', 'scheduler', 'psensor', 'osensor', 'cms'):
             o = self.make_aux(d)
         else:
@@ -690,19 +697,19 @@ class LineWorld:
             cap = INF if cap is None else cap
             if k == 'psensor':
                 probes = [AttributeProbe(attr, self.dev[tgt]) for tgt, attr in d['probes']]
-                o = PeriodicSensor(d['interval'], probes, d.get('asset_name', name), cap)
+                o = PeriodicSensor(d['interval'], probes, d.get('asset_name', name), cap, d.get('value', 0))
             else:
                 # the placeholder target of a part probe is replaced by the finished part at every measurement
                 ph = self.dev[d['processor']] if d.get('placeholder') == 'processor' else None
                 probes = [AttributeProbe(attr, ph) for attr in d['probes']]
-                o = OutputPartSensor(self.dev[d['processor']], probes, d.get('sensing_interval', 0), name, cap)
+                o = OutputPartSensor(self.dev[d['processor']], probes, d.get('sensing_interval', 0), name, cap, d.get('value', 0))
                 if d.get('post_dq') is not None:
                     self.dev[d['processor']].add_finish_processing_callback(AddValue(0, d['post_dq']))
             for n in range(d.get('callbacks', 1)):
                 o.add_on_sense_callback(SenseCallback(self.hub, n, name))
             return o
         if k == 'cms':
-            o = HCms(self.maintainer, name, hub=self.hub, devs=self.dev)
+            o = HCms(self.maintainer, name, d.get('value', 0), hub=self.hub, devs=self.dev)
             for sname in d.get('sensors', []):          # a name listed twice = add_sensor called twice
                 o.add_sensor(self.dev[sname])
             return o
@@ -1071,6 +1078,7 @@ class LineWorld:
             o.x[0] += 1           # in place: a sensor that stored a reference instead of a copy is exposed
             o.n += 1
             o.r.v += 1
+            o.m = o.n if o.m is None else None
         else:
             raise HarnessError(f'unknown op {op}')
 
